@@ -48,12 +48,30 @@ func c12Schema(order int) *j.Schema {
 	return s
 }
 
-func init() {
-	// the shared schema is coherent; verified once on a twin so that the schema
-	// handed to the operations has never been touched by a query before
-	if errs := c12Schema(0).Check(); len(errs) > 0 {
-		panic(fmt.Sprint(errs))
+// c12Coherent verifies once, on a twin, that the shared schema is coherent, so
+// that the schema handed to the operations has never been touched by a query
+// before. (Not in a package init: a change that breaks it must fail C12, not
+// every check of the runner.)
+var (
+	c12CoherentOnce sync.Once
+	c12Incoherent   string
+)
+
+func c12Coherent(x *mc.Exec) bool {
+	c12CoherentOnce.Do(func() {
+		if p := Try(func() {
+			if errs := c12Schema(0).Check(); len(errs) > 0 {
+				c12Incoherent = fmt.Sprint(errs)
+			}
+		}); p != "" {
+			c12Incoherent = "building the shared schema panicked: " + p
+		}
+	})
+	if c12Incoherent != "" {
+		x.Fail("C12:shared-schema-not-buildable", "the shared schema of the harness cannot be built / is incoherent: %s", c12Incoherent)
+		return false
 	}
+	return true
 }
 
 type c12Op struct {
@@ -196,6 +214,9 @@ func c12Functional(s *j.Schema) string {
 // ---- (1) solo runs under the snapshot monitor, statement granularity --------
 
 func c12Solo(x *mc.Exec) {
+	if !c12Coherent(x) {
+		return
+	}
 	ops := c12Ops()
 	oi := x.Choose(len(ops), "op")
 	order := x.Choose(6, "type order")
@@ -281,6 +302,9 @@ func c12EntrySites() map[int]bool {
 }
 
 func c12Interleave(x *mc.Exec, opIdx []int, order int, statementGranularity bool) {
+	if !c12Coherent(x) {
+		return
+	}
 	ops := c12Ops()
 	s := c12Schema(order)
 	solo := make([]string, len(opIdx))
@@ -402,6 +426,9 @@ func c12Fine(x *mc.Exec) {
 // ---- (3) op sequences from non-initial states --------------------------------
 
 func c12Sequences(x *mc.Exec) {
+	if !c12Coherent(x) {
+		return
+	}
 	ops := c12Ops()
 	a := x.Choose(len(ops), "first op")
 	b := x.Choose(len(ops), "second op")
